@@ -9,7 +9,7 @@ run() { # patch props...
 }
 n=0
 for d in /verif/seeded/*/; do
-  id=$(basename $d); prop=$(echo $id | sed "s/^W2//" | cut -c1-3)
+  id=$(basename $d); prop=$(echo $id | sed "s/^W[0-9]//" | cut -c1-3)
   run $d/patch.diff $prop &
   n=$((n+1)); [ $((n % 6)) -eq 0 ] && wait
 done
